@@ -25,6 +25,7 @@
  *            bc:c:ca:pathlen  ku:c:bits  eku:c:p.p.p ('-' = empty list; 0 any 1 server 2 client 3.. others)
  *            ski:c:len  aki:c  cp:c pm:c san:c ian:c sda:c nc:c pc:c crldp:c iap:c fcrl:c
  *            ns:c aia:c (known to the OID table, not to x509_exts_check)  unk:c (OID 1.2.3.4.5)
+ *            rawoid:c:<hex>  extnID content octets verbatim (arcs of 2^32 and more, redundant leading septets, ...)
  *            bad:c  (an extension whose extnValue is not an OCTET STRING)
  */
 #include "common.h"
@@ -91,6 +92,17 @@ static int add_raw_ext(uint8_t *exts, size_t *extslen, size_t max, const uint32_
 		|| asn1_boolean_to_der(critical, &p, extslen) < 0
 		|| (bad_value ? asn1_integer_to_der(val, vlen, &p, extslen) : asn1_octet_string_to_der(val, vlen, &p, extslen)) != 1)
 		return -1;
+	return 1;
+}
+/* raw Extension whose extnID content octets are given verbatim (arcs beyond 32 bits, redundant septets, ...) */
+static int add_raw_ext_oidbytes(uint8_t *exts, size_t *extslen, size_t max, const uint8_t *oid, size_t oidlen, int critical, const uint8_t *val, size_t vlen) {
+	size_t len = 2 + oidlen; uint8_t *p = exts + *extslen;
+	if (oidlen < 1 || oidlen > 100) return -1;
+	if (asn1_boolean_to_der(critical, NULL, &len) < 0 || asn1_octet_string_to_der(val, vlen, NULL, &len) != 1) return -1;
+	if (*extslen + len + 4 > max) return -1;
+	if (asn1_sequence_header_to_der(len, &p, extslen) != 1) return -1;
+	*p++ = 0x06; *p++ = (uint8_t)oidlen; memcpy(p, oid, oidlen); p += oidlen; *extslen += 2 + oidlen;
+	if (asn1_boolean_to_der(critical, &p, extslen) < 0 || asn1_octet_string_to_der(val, vlen, &p, extslen) != 1) return -1;
 	return 1;
 }
 static int add_ext_val(uint8_t *exts, size_t *extslen, size_t max, int oid, int critical, const uint8_t *val, size_t vlen) {
@@ -163,6 +175,7 @@ static int add_one_ext(uint8_t *exts, size_t *extslen, size_t max, char *spec) {
 		return add_raw_ext(exts, extslen, max, n, 5, critical, generic, sizeof generic, 0); }
 	if (!strcmp(kind, "cepre")) { static const uint32_t n[] = { 2, 5, 29 };
 		return add_raw_ext(exts, extslen, max, n, 3, critical, generic, sizeof generic, 0); }
+	if (!strcmp(kind, "rawoid")) { buf_t o = hex2buf(a1 ? a1 : "-"); int r = add_raw_ext_oidbytes(exts, extslen, max, o.p, o.n, critical, generic, sizeof generic); free(o.p); return r; }
 	if (!strcmp(kind, "bad")) { static const uint32_t n[] = { 2, 5, 29, 19 }; static const uint8_t one[] = { 1 };
 		return add_raw_ext(exts, extslen, max, n, 4, critical, one, 1, 1); }
 	return -1;
@@ -251,6 +264,17 @@ static blob_t make_cert(const char *tok) {
 }
 
 /* concatenation of the certificates of a list token into one exactly sized heap block */
+/* lists of the same role (0 chain, 1 trust store, 2 single certificate) and length live at one address for the whole run,
+ * exactly sized: consecutive operations give the library the same (pointer, length) with other content */
+#define RA_MAX 8192
+static struct { int slot; size_t n; uint8_t *p; } ra_tab[RA_MAX]; static size_t ra_cnt;
+static uint8_t *reuse_alloc(int slot, size_t n) {
+	size_t i; for (i = 0; i < ra_cnt; i++) if (ra_tab[i].slot == slot && ra_tab[i].n == n) return ra_tab[i].p;
+	if (ra_cnt == RA_MAX) return malloc(n ? n : 1);
+	ra_tab[ra_cnt].slot = slot; ra_tab[ra_cnt].n = n; ra_tab[ra_cnt].p = malloc(n ? n : 1); return ra_tab[ra_cnt++].p;
+}
+static void reuse_free(uint8_t *p) { size_t i; for (i = 0; i < ra_cnt; i++) if (ra_tab[i].p == p) return; free(p); }
+static int list_slot = 0;
 static blob_t make_list(char *list) {
 	blob_t all = { malloc(1), 0 };
 	char *save = NULL, *t;
@@ -262,24 +286,29 @@ static blob_t make_list(char *list) {
 		memcpy(all.p + all.n, c.p, c.n); all.n += c.n; free(c.p);
 	}
 	/* re-allocate exactly */
-	{ uint8_t *e = malloc(all.n ? all.n : 1); memcpy(e, all.p, all.n); free(all.p); all.p = e; }
+	{ uint8_t *e = reuse_alloc(list_slot, all.n); memcpy(e, all.p, all.n); free(all.p); all.p = e; }
 	return all;
 }
 
 static void handle(size_t nw, char **w) {
 	fail_build = 0;
+	if (!strcmp(w[0], "seq")) {       /* seq <op> | <op> | ... : the operations run back to back in this process */
+		size_t i = 1, st = 1; int first = 1;
+		for (; i <= nw; i++) if (i == nw || !strcmp(w[i], "|")) { if (i > st) { if (!first) printf(" ;; "); first = 0; handle(i - st, w + st); } st = i + 1; }
+		return;
+	}
 	if (!strcmp(w[0], "verify") && nw == 7) {
 		int tlcp = !strcmp(w[1], "tlcp");
 		int role = !strcmp(w[2], "0") ? X509_cert_chain_server : !strcmp(w[2], "1") ? X509_cert_chain_client : 77;
 		int depth = atoi(w[3]); long long now = strtoll(w[4], NULL, 10);
 		blob_t chain, store; int vr = 0, ret;
 		ent_clock((time_t)now);
-		chain = make_list(w[5]); store = fail_build ? (blob_t){ malloc(1), 0 } : make_list(w[6]);
-		if (fail_build) { printf("BUILD-ERR"); free(chain.p); free(store.p); return; }
+		list_slot = 0; chain = make_list(w[5]); list_slot = 1; store = fail_build ? (blob_t){ malloc(1), 0 } : make_list(w[6]);
+		if (fail_build) { printf("BUILD-ERR"); reuse_free(chain.p); reuse_free(store.p); return; }
 		ret = tlcp ? x509_certs_verify_tlcp(chain.p, chain.n, role, store.p, store.n, depth, &vr)
 			: x509_certs_verify(chain.p, chain.n, role, store.p, store.n, depth, &vr);
 		if (ret == 1) printf("1"); else printf("ERR");
-		free(chain.p); free(store.p);
+		reuse_free(chain.p); reuse_free(store.p);
 	}
 	else if (!strcmp(w[0], "check") && nw == 4) {
 		int ctype = atoi(w[1]); long long now = strtoll(w[2], NULL, 10);
@@ -287,16 +316,17 @@ static void handle(size_t nw, char **w) {
 		ent_clock((time_t)now);
 		c = make_cert(w[3]);
 		if (fail_build) { printf("BUILD-ERR"); free(c.p); return; }
+		{ uint8_t *e = reuse_alloc(2, c.n); memcpy(e, c.p, c.n); free(c.p); c.p = e; }
 		ret = x509_cert_check(c.p, c.n, ctype, &plc);
 		if (ret == 1) printf("1 %d", plc); else printf("ERR");
-		free(c.p);
+		reuse_free(c.p);
 	}
 	else if (!strcmp(w[0], "bysubj") && nw == 3) {
 		long id = strtol(w[1], NULL, 10);
 		uint8_t name[256]; size_t namelen = 0; blob_t store; const uint8_t *c = NULL; size_t cl = 0; int ret;
 		if (make_name(id, name, &namelen, sizeof name) != 1) { printf("BUILD-ERR"); return; }
-		store = make_list(w[2]);
-		if (fail_build) { printf("BUILD-ERR"); free(store.p); return; }
+		list_slot = 1; store = make_list(w[2]);
+		if (fail_build) { printf("BUILD-ERR"); reuse_free(store.p); return; }
 		ret = x509_certs_get_cert_by_subject(store.p, store.n, name, namelen, &c, &cl);
 		if (ret == 1) {
 			/* index of the returned certificate */
@@ -304,7 +334,7 @@ static void handle(size_t nw, char **w) {
 			while (dl && asn1_any_from_der(&a, &al, &d, &dl) == 1) { if (a == c) break; idx++; }
 			printf("1 %d", idx);
 		} else if (ret == 0) printf("0"); else printf("ERR");
-		free(store.p);
+		reuse_free(store.p);
 	}
 	else printf("ERR bad-op");
 }
